@@ -36,14 +36,25 @@ def save_jobs(tier):
              "map_order": True, "_obligation": "O3", "_covers": ["saved"], "unwind": 80} for b in (0, 1)]
 
 
+def api_jobs(tier):
+    return [{"id": f"O4.api-in-txn.branchable{b}", "func": "VerifH_C20_ApiInTxn", "conf": {"branchable": b, "faults": 0, "dag": "", "orders": "all", "shortid": 0, "for": "C20"},
+             "_obligation": "O4", "_covers": ["operated", "committed", "discarded"], "unwind": 80} for b in (0, 1)]
+
+
+API_REDIR = dict(SAVE_REDIR)
+API_REDIR["(*github.com/sourcenetwork/defradb/client.Document).GenerateDocID"] = "sKeepDocID"
+API_REDIR["(*github.com/sourcenetwork/defradb/internal/datastore.Multistore).Blockstore"] = "sBlockstore"
+API_REDIR["(*github.com/sourcenetwork/defradb/internal/datastore.Multistore).Encstore"] = "sEncstore"
+
 SAVE_SUITE = dict(_c02.SUITE, name="save", jobs=save_jobs, redirects=SAVE_REDIR, overrides=SAVE_OVR, files=SAVE_FILES)
 
 PROPERTY = {
     "id": "C20",
-    "suites": [SAVE_SUITE, {"name": "bus", "pkg": "event", "files": ["zz_verif_c20.go"], "common": ["intrinsics"], "jobs": bus_jobs, "unwind": 200,
+    "suites": [SAVE_SUITE, dict(SAVE_SUITE, name="api", jobs=api_jobs, redirects=API_REDIR, files=SAVE_FILES + ["zz_verif_c20api.go"], common=["intrinsics", "kvmodel", "dagenv", "kvtxn"]), {"name": "bus", "pkg": "event", "files": ["zz_verif_c20.go"], "common": ["intrinsics"], "jobs": bus_jobs, "unwind": 200,
                 "witnesses": {"quick": 16, "thorough": 48}},
                {"name": "datastore", "pkg": "internal/datastore", "files": ["zz_verif_txn.go"], "common": ["intrinsics", "kvmodel"], "jobs": txn_jobs}],
-    "bounds": {"bus": "1-3 subscribers with any subset of up to 3 event names and * (wildcard listed first or last), 2-3 publishes of symbolic names, each subscriber subscribes at any position and unsubscribes at any later one or never, every rotation of every map iteration; event buffers larger than the number of messages", "callbacks": "<= 2 each of success/error/discard", "commit outcome": "symbolic"},
+    "bounds": {"API level (O4)": "one document; Create, then optionally Update (second field), then optionally Delete, inside one explicit transaction; the caller commits or discards (inputs); plain and branchable collection; blocks live in the block table of the environment (putBlock, the block store accessors of the transaction, GenerateDocID and FieldValue.Bytes are redirected inside the solver run)",
+               "bus": "1-3 subscribers with any subset of up to 3 event names and * (wildcard listed first or last), 2-3 publishes of symbolic names, each subscriber subscribes at any position and unsubscribes at any later one or never, every rotation of every map iteration; event buffers larger than the number of messages", "callbacks": "<= 2 each of success/error/discard", "commit outcome": "symbolic"},
     "assumptions": ["publication of update events is registered through Txn.OnSuccess (collection.save / applyDelete); checked here is that such callbacks run iff the store commit succeeded, once, in order"],
-    "outside_claim": ["that save/applyDelete register exactly one publication per new composite commit (client.Document)", "GraphQL subscriptions", "cross-goroutine ordering"],
+    "outside_claim": ["DeleteWithFilter / UpdateWithFilter and requests (planner, GraphQL) as sources of notifications", "GraphQL subscriptions", "cross-goroutine ordering"],
 }
